@@ -472,8 +472,17 @@ class BuildAlg:
                     out[e.name] = e
         return out
 
+    touch = False   # True: every intermediate expression is classified (.degree / .is_linear()) the moment it is built
+
     def ev(self, r):
-        return getattr(self, "n_" + r[0])(*r[1:])
+        out = getattr(self, "n_" + r[0])(*r[1:])
+        if self.touch and hasattr(out, "evaluate") and hasattr(out, "get_variables"):
+            try:
+                out.degree
+                out.is_linear()
+            except Exception:
+                pass
+        return out
 
     # ---- scalars
     def n_var(self, name):
